@@ -323,10 +323,10 @@ fn duplicate_runs(_t: Tier) -> BoxedStrategy<Case> {
 
 fn subs() -> Vec<Sub> {
     vec![
-        gen_sub("duplicate_runs", duplicate_runs, |t| t.pick(3_000, 60_000), check),
-        gen_sub("large_maps", large, |t| t.pick(120, 2_000), check),
-        gen_sub("lookups", plain, |t| t.pick(40_000, 600_000), check),
-        gen_sub("histories", histories, |t| t.pick(10_000, 200_000), check),
+        gen_sub("duplicate_runs", duplicate_runs, |t| t.pick(9_000, 60_000), check),
+        gen_sub("large_maps", large, |t| t.pick(300, 2_000), check),
+        gen_sub("lookups", plain, |t| t.pick(120_000, 600_000), check),
+        gen_sub("histories", histories, |t| t.pick(40_000, 200_000), check),
     ]
 }
 
